@@ -186,6 +186,7 @@ class RunDT(R.Run):
         _NOW[0] = float(ORIGIN_EPOCH + _builtin_int(dt.get('now0', 0)))
         self.idle = False
         self._prev_key = None
+        self.old_exp = {}       # (point, name) -> expiry time under a definition replaced by a reload
 
     async def start(self, restart=False):
         schd = await super().start(restart)
@@ -263,6 +264,12 @@ class RunDT(R.Run):
         if op['op'] == 'tick':
             _NOW[0] += _builtin_int(op['dt'])
             return
+        if op['op'] == 'reload':
+            # (policy only) the expiry times the pooled tasks had under the definition that is being replaced: the clock
+            # is later also stepped to these, so that an expiry time that is NOT recomputed by the reload shows
+            for t in self.schd.pool.get_tasks():
+                if t.expire_time is not None:
+                    self.old_exp[(pint(t.point), t.tdef.name)] = _builtin_int(t.expire_time)
         real = dict(op)
         if 'task' in real and isinstance(real['task'], str):
             real['task'] = _tid(real['task'])
@@ -292,7 +299,9 @@ class RunDT(R.Run):
             pool = self.schd.pool
             waiting = [t for t in pool.get_tasks() if t.state.status == 'waiting']
             pend = sorted({_builtin_int(t.expire_time) for t in waiting
-                           if t.expire_time is not None and t.expire_time > _NOW[0]})
+                           if t.expire_time is not None and t.expire_time > _NOW[0]} |
+                          {v for t in waiting for v in [self.old_exp.get((pint(t.point), t.tdef.name))]
+                           if v is not None and v > _NOW[0]})
             p_tick = pol.get('p_tick_idle', 0.7) if (self.idle and pend) else pol.get('p_tick', 0.15)
             if rng.random() < p_tick:
                 choices = list(pol.get('ticks') or [600, 1800, 3600, 3600, 5400])
